@@ -559,6 +559,68 @@ fn main() {
                 out.flush().unwrap();
             }
         }
+        "deep" => {
+            // C06: deeply nested (but perfectly well-formed) input for the recursive definitions:
+            //   RecList: depth levels of (u16 value, tag 1) then (value, tag 0);  RecTree: depth levels of (u8, length 1) then (u8, length 0)
+            //   wire deep <depths,comma separated> <out> [<records of spec/Deep.tla>]
+            let mut out = open_out(&args[3]);
+            // the generator below must produce exactly the specification's encodings (checked on the depths TLC exported)
+            let spec: Vec<Value> = args.get(4).map(|p| std::fs::read_to_string(p).expect("deep records").lines().map(|l| serde_json::from_str(l).expect("json")).collect()).unwrap_or_default();
+            for depth in args[2].split(',').map(|d| d.parse::<usize>().expect("depth")) {
+                for ty in ["RecList", "RecTree"] {
+                    let mut inp = Vec::new();
+                    for i in 0..=depth {
+                        let last = i == depth;
+                        if ty == "RecList" {
+                            inp.extend_from_slice(&[(i % 251) as u8, 1]);
+                            inp.push(if last { 0 } else { 1 });
+                        } else {
+                            inp.push((i % 251) as u8);
+                            inp.extend_from_slice(&(if last { 0u64 } else { 1u64 }).to_le_bytes());
+                        }
+                    }
+                    let n = inp.len();
+                    if let Some(rec) = spec.iter().find(|r| r["ty"] == ty && r["depth"].as_u64() == Some(depth as u64)) {
+                        if bytes_of(&rec["bytes"]) != inp {
+                            writeln!(out, "{}", json!({"ty": ty, "depth": depth, "bytes": n, "tool_error": "the harness's generator of nested input disagrees with spec/Deep.tla"})).unwrap();
+                            continue;
+                        }
+                    }
+                    let obs = vcommon::in_child(move || {
+                        let mut src = TapR::new(&inp);
+                        src.keep_log = false;
+                        let r = if ty == "RecList" {
+                            guarded(|| savefile::Deserializer::bare_deserialize::<vcommon::RecList>(&mut src, 0).map(|v| {
+                                // count the levels without recursing, and take the value apart iteratively so that dropping it cannot overflow either
+                                let mut levels = 1usize;
+                                let mut cur = v;
+                                while let Some(next) = cur.next.take() {
+                                    levels += 1;
+                                    cur = *next;
+                                }
+                                levels
+                            }))
+                        } else {
+                            guarded(|| savefile::Deserializer::bare_deserialize::<vcommon::RecTree>(&mut src, 0).map(|v| {
+                                let mut levels = 1usize;
+                                let mut cur = v;
+                                while let Some(next) = cur.kids.pop() {
+                                    levels += 1;
+                                    cur = next;
+                                }
+                                levels
+                            }))
+                        };
+                        match r {
+                            Outcome::Ok(levels) => json!({"real": "ok", "msg": "", "levels": levels, "rpos": src.pos, "reser": [], "oom": false}),
+                            Outcome::Err(c, m) => json!({"real": "err", "msg": format!("{}: {}", c, m), "levels": 0, "rpos": src.pos, "reser": [], "oom": false}),
+                            Outcome::Panic(m) => json!({"real": "panic", "msg": m, "levels": 0, "rpos": src.pos, "reser": [], "oom": false}),
+                        }
+                    });
+                    writeln!(out, "{}", json!({"ty": ty, "depth": depth, "bytes": n, "obs": obs})).unwrap();
+                }
+            }
+        }
         "prefixes" => {
             // C07: every strict prefix of every real file, in every container
             let input = std::fs::File::open(&args[2]).expect("records file");
